@@ -38,3 +38,112 @@ theorem pow2B_two_pow (k : Nat) : pow2B (2 ^ k) = true := by
   simp [h2]
 
 end Wf
+
+namespace Wf
+
+/-- close a goal `h : <decoder applied to bs> = Out.abort ⊢ False` by walking through every
+    `match` / `if` of the decoder; the leaves are no-abort facts of the primitive readers -/
+macro "noabort_walk" h:ident : tactic => `(tactic|
+  (repeat' (first
+    | (cases $h:ident; done)
+    | (split at $h:ident))))
+
+theorem traceInfo_decode_noAbort : NoAbort TraceInfo.decode := by
+  intro bs h
+  unfold TraceInfo.decode at h
+  noabort_walk h
+  all_goals (first
+    | (rename_i h'; exact readLe_noAbort _ _ h')
+    | (rename_i h'; exact readSlice_noAbort _ _ h'))
+
+theorem dec_bind_noAbort {α β} (d : Dec α) (f : α → Dec β) (hd : NoAbort d) (hf : ∀ a, NoAbort (f a)) :
+    NoAbort (Dec.bind d f) := by
+  intro bs h
+  unfold Dec.bind at h
+  split at h
+  · exact hf _ _ h
+  · cases h
+  · rename_i h'; exact hd _ h'
+
+theorem readTag_noAbort (v : Nat → Bool) : NoAbort (ProofOptions.readTag v) := by
+  intro bs h
+  unfold ProofOptions.readTag at h
+  noabort_walk h
+  rename_i h'; exact readLe_noAbort _ _ h'
+
+theorem proofOptions_decode_noAbort : NoAbort ProofOptions.decode :=
+  dec_bind_noAbort _ _ (readLe_noAbort 1) fun _ =>
+  dec_bind_noAbort _ _ (readLe_noAbort 1) fun _ =>
+  dec_bind_noAbort _ _ (readLe_noAbort 1) fun _ =>
+  dec_bind_noAbort _ _ (readTag_noAbort _) fun _ =>
+  dec_bind_noAbort _ _ (readLe_noAbort 1) fun _ =>
+  dec_bind_noAbort _ _ (readLe_noAbort 1) fun _ =>
+  dec_bind_noAbort _ _ (readTag_noAbort _) fun _ =>
+  dec_bind_noAbort _ _ (readTag_noAbort _) fun _ =>
+  dec_bind_noAbort _ _ (readLe_noAbort 1) fun _ =>
+  dec_bind_noAbort _ _ (readLe_noAbort 1) fun _ => by
+    intro bs h
+    simp only [] at h
+    split at h <;> cases h
+
+theorem context_decode_noAbort : NoAbort Context.decode := by
+  intro bs h
+  unfold Context.decode at h
+  noabort_walk h
+  all_goals (first
+    | (rename_i h'; exact readLe_noAbort _ _ h')
+    | (rename_i h'; exact readSlice_noAbort _ _ h')
+    | (rename_i h'; exact traceInfo_decode_noAbort _ h')
+    | (rename_i h'; exact proofOptions_decode_noAbort _ h')
+    | (rename_i h'; exact readUsize_noAbort _ h'))
+
+theorem oodFrame_noAbort : NoAbort oodFrameDec := by
+  intro bs h
+  unfold oodFrameDec at h
+  noabort_walk h
+  all_goals (rename_i h'; exact lenBytes_noAbort 2 _ h')
+
+theorem friLayer_noAbort : NoAbort friLayerDec := by
+  intro bs h
+  unfold friLayerDec at h
+  noabort_walk h
+  all_goals (first
+    | (rename_i h'; exact readLe_noAbort _ _ h')
+    | (rename_i h'; exact readSlice_noAbort _ _ h')
+    | (rename_i h'; exact lenBytes_noAbort 4 _ h'))
+
+theorem friProof_noAbort : NoAbort friProofDec := by
+  intro bs h
+  unfold friProofDec at h
+  noabort_walk h
+  all_goals (first
+    | (rename_i h'; exact readLe_noAbort _ _ h')
+    | (rename_i h'; exact lenBytes_noAbort 2 _ h')
+    | (rename_i h'; exact readMany_noAbort _ friLayer_noAbort _ _ _ h'))
+
+theorem bytesVec_noAbort : NoAbort bytesVec.dec := by
+  intro bs h
+  simp only [bytesVec] at h
+  noabort_walk h
+  rename_i h'; exact readUsize_noAbort _ h'
+
+theorem queries_noAbort : NoAbort queriesCodec.dec := by
+  intro bs h
+  simp only [queriesCodec, Codec.pair] at h
+  noabort_walk h
+  all_goals (rename_i h'; exact bytesVec_noAbort _ h')
+
+theorem proof_noAbort : NoAbort proofDec := by
+  intro bs h
+  unfold proofDec at h
+  noabort_walk h
+  all_goals (first
+    | (rename_i h'; exact readLe_noAbort _ _ h')
+    | (rename_i h'; exact context_decode_noAbort _ h')
+    | (rename_i h'; exact lenBytes_noAbort 2 _ h')
+    | (rename_i h'; exact readManyLoop_noAbort _ queries_noAbort _ _ _ h')
+    | (rename_i h'; exact queries_noAbort _ h')
+    | (rename_i h'; exact oodFrame_noAbort _ h')
+    | (rename_i h'; exact friProof_noAbort _ h'))
+
+end Wf
